@@ -24,6 +24,11 @@ TIMES = 'history/times.py'; HFILES = 'history/files.py'; TNETS = 'server/tnetstr
 POLL = 'server/enip/poll.py'; DEFAULTS = 'server/enip/defaults.py'; NETWORK = 'server/network.py'
 
 VARIANTS = [
+    V( 'replies-bundle-status-not-raised', CLIENT, "msvc_status = request.get( 'status' )\n if msvc_status:\n raise MSVCStatusError( status=msvc_status )", "msvc_status		= request.get( 'status' )", fires=[ 'K-REPLIES' ] ),
+    V( 'replies-first-member-only', CLIENT, "replies = request.multiple.request\n", "replies		= request.multiple.request[:1]\n", fires=[ 'K-REPLIES' ] ),
+    V( 'replies-timeout-as-eof', CLIENT, "if response is None: # None response indicates timeout\n return None", "if response is None: # None response indicates timeout\n        return {}", fires=[ 'K-REPLIES' ] ),
+    V( 'replies-connected-item-ignored', CLIENT, "data = item_1.get( 'unconnected_send' ) or item_1.get( 'connection_data' )", "data			= item_1.get( 'unconnected_send' )", fires=[ 'K-REPLIES' ] ),
+    V( 'replies-item-order-swapped', CLIENT, "data = item_1.get( 'unconnected_send' ) or item_1.get( 'connection_data' )", "data			= item_1.get( 'connection_data' ) or item_1.get( 'unconnected_send' )", silent=[ 'K-REPLIES' ] ),
     V( 'route-retired-after-release', UCMM, "except Exception:\n # Retire the failed route while we still hold it: once released, a\n # session queued for it would find it still registered, send on it\n # and receive the late response to our request.\n with self.route_lock:\n if self.route_conn.get( target ) is route:\n self.route_conn.pop( target )\n route.close()\n raise", "except Exception:\n                                        raise", fires=[ 'P-ROUTE' ] ),
     V( 'phase-request-code-behind-reply-bit', LOGIX, "assert offremains == 0 or (\n attribute.parser.tag_type < STRING.tag_type\n and offremains % attribute.parser.struct_calcsize == 0 )", "if data.service == self.RD_FRG_REQ:\n                        assert offremains == 0 or (\n                            attribute.parser.tag_type < STRING.tag_type\n                            and offremains % attribute.parser.struct_calcsize == 0 )", fires=[ 'S-PHASE' ] ),
     V( 'phase-reply-code-behind-reply-bit', LOGIX, "assert offremains == 0 or (\n attribute.parser.tag_type < STRING.tag_type\n and offremains % attribute.parser.struct_calcsize == 0 )", "if data.service in ( self.RD_FRG_RPY, self.RD_TAG_RPY ):\n                        assert offremains == 0 or (\n                            attribute.parser.tag_type < STRING.tag_type\n                            and offremains % attribute.parser.struct_calcsize == 0 )", silent=[ 'S-PHASE' ] ),
